@@ -151,6 +151,10 @@ type Scn struct {
 	Root      int         `json:"root"`
 	Runs      int         `json:"runs,omitempty"`
 	Via       string      `json:"via,omitempty"` // "" flyt.Run | flowrun (Flow.Run)
+	// ReuseKept: the batch post keeps the result list it was given and the next
+	// batch prep builds its item list in that slice's storage (a caller recycling
+	// a buffer that, after post has returned, is the caller's).
+	ReuseKept bool `json:"reuse_kept,omitempty"`
 	// NilStore: the run is given a nil *SharedStore; that (and nothing the
 	// framework makes up) is what prep and post receive.
 	NilStore bool `json:"nil_store,omitempty"`
